@@ -410,6 +410,12 @@ def check_calculate_mappings(run, A):
                 ok_chain = strip_views(fcol) is f and inner.op == 'sub' and strip_views(inner.args[0]) is strip_views(base) and inner.args[1].op == 'tuple' \
                     and strip_views(inner.args[1].args[0][1]).op == 'binop' and strip_views(inner.args[1].args[0][1]).args[0] == 'Sub' \
                     and strip_views(inner.args[1].args[0][1]).args[1] is f and const_val(strip_views(inner.args[1].args[0][1]).args[2]) == 1
+                if not ok_chain and strip_views(fcol) is f and inner.op == 'mu' and inner.next is not None and strip_views(inner.next) is v:
+                    # the composed predecessor column is carried in a variable instead of being read back: previous = mapping[previous, f]; mapping[:, f] = previous,
+                    # started with column 0 of the same mapping
+                    init = strip_views(inner.args[0])
+                    ok_chain = init.op == 'sub' and init.args[1].op == 'tuple' and len(init.args[1].args[0]) == 2 and const_val(strip_views(init.args[1].args[0][1])) == 0 \
+                        and strip_views(init.args[1].args[0][0]).op == 'slice' and _chain_root(strip_views(init.args[0])) is _chain_root(strip_views(base))
                 L = f.extra if f.op == 'elem' else None
                 if ok_chain and L is not None:
                     rng = L.iter
